@@ -416,15 +416,32 @@ func (c *pvComp) Run(args []string) string {
 		for _, a := range args[1:] {
 			q.Queries = append(q.Queries, client.Path(decPath(a)))
 		}
-		req, err := gnmiclient.ToSubscribeRequest(q)
-		if err != nil {
-			return "err"
+		// A reconnecting client converts the same Query object again for every attempt
+		// (client.Reconnect -> Subscribe): convert it three times, the answers must agree
+		// and the caller's query must come back untouched.
+		render := func() string {
+			req, err := gnmiclient.ToSubscribeRequest(q)
+			if err != nil {
+				return "err"
+			}
+			var out []string
+			for _, s := range req.GetSubscribe().GetSubscription() {
+				out = append(out, pvRenderGPath(s.GetPath()))
+			}
+			return "[" + strings.Join(out, "|") + "]"
 		}
-		var out []string
-		for _, s := range req.GetSubscribe().GetSubscription() {
-			out = append(out, pvRenderGPath(s.GetPath()))
+		first := render()
+		for i := 1; i < 3; i++ {
+			if r := render(); r != first {
+				return "nonidem:" + first + "!=" + r
+			}
 		}
-		return "[" + strings.Join(out, "|") + "]"
+		for i, a := range args[1:] {
+			if !reflect.DeepEqual(append([]string{}, q.Queries[i]...), append([]string{}, decPath(a)...)) {
+				return "mutated:[" + encPath(q.Queries[i]) + "]"
+			}
+		}
+		return first
 	case "scalar":
 		if len(args) != 2 {
 			return "bad-op"
